@@ -1,0 +1,67 @@
+//go:build verif
+
+// Copyright (c) The Thanos Community Authors.
+// Licensed under the Apache License 2.0.
+
+package execution
+
+import (
+	"sync"
+
+	"github.com/prometheus/prometheus/promql/parser"
+	"github.com/prometheus/prometheus/storage"
+
+	"github.com/thanos-community/promql-engine/execution/model"
+	engstore "github.com/thanos-community/promql-engine/execution/storage"
+	"github.com/thanos-community/promql-engine/query"
+)
+
+// OperatorWrapper is called for every operator the planner builds when the
+// engine is compiled with the verif build tag. It returns the operator that is
+// put into the plan instead (normally a monitor around op).
+type OperatorWrapper func(op model.VectorOperator, expr parser.Expr, opts *query.Options) model.VectorOperator
+
+var (
+	verifMu      sync.RWMutex
+	verifWrapper OperatorWrapper
+)
+
+// SetOperatorWrapper installs (or, with nil, removes) the operator wrapper.
+func SetOperatorWrapper(w OperatorWrapper) {
+	verifMu.Lock()
+	verifWrapper = w
+	verifMu.Unlock()
+}
+
+func getVerifWrapper() OperatorWrapper {
+	verifMu.RLock()
+	defer verifMu.RUnlock()
+	return verifWrapper
+}
+
+// verifMarker marks an expression whose operator is being built on behalf of verifEnter.
+type verifMarker struct {
+	parser.Expr
+}
+
+func verifEnter(expr parser.Expr, st *engstore.SelectorPool, opts *query.Options, hints storage.SelectHints) (parser.Expr, model.VectorOperator, error, bool) {
+	if m, ok := expr.(verifMarker); ok {
+		return m.Expr, nil, nil, false
+	}
+	w := getVerifWrapper()
+	if w == nil {
+		return expr, nil, nil, false
+	}
+	op, err := newOperator(verifMarker{expr}, st, opts, hints)
+	if err != nil {
+		return expr, nil, err, true
+	}
+	return expr, w(op, expr, opts), nil, true
+}
+
+func verifWrap(op model.VectorOperator, expr parser.Expr, opts *query.Options) model.VectorOperator {
+	if w := getVerifWrapper(); w != nil {
+		return w(op, expr, opts)
+	}
+	return op
+}
